@@ -16,6 +16,7 @@ import (
 type route struct {
 	name    string
 	general bool
+	scope   bool   // the body runs inside a function: cannot follow / be followed by another scope route
 	control string // "" normal (copy must be independent) | "ref" | "handle" (write-through expected)
 	origin  func(u int) (setup, lv string)
 	// originBuild: the original lives where only the route's own code can build it (a static local);
@@ -51,7 +52,7 @@ func flat(name string, general bool, origin func(u int) (string, string), stmt f
 func isRO(lv string) bool { return strings.HasSuffix(lv, ")") }
 
 func paramRoute(name string, byRef bool) route {
-	r := route{name: name, general: true}
+	r := route{name: name, general: true, scope: true}
 	if byRef {
 		r.control = "ref"
 	}
@@ -78,6 +79,49 @@ func paramRoute(name string, byRef bool) route {
 		return pre, post, inner
 	}
 	return r
+}
+
+// callRoute: by-value parameter of a plain function that has ONLY plain parameters (no & / variadic),
+// reached through a particular call form. The caller's names are visible inside through `global`
+// declarations (so the callee's signature stays plain); the caller also snapshots around the call.
+// call(u, src) returns the statements that perform the call of f<u>.
+func callRoute(name string, general bool, origin func(u int) (string, string), nparams int, call func(u int, src string) string, closure bool) route {
+	return route{name: name, general: general, scope: true, origin: origin, apply: func(u int, live []string, src int) (string, string, []string) {
+		bases := map[string]bool{}
+		var decl []string
+		for _, l := range live {
+			if isRO(l) {
+				continue
+			}
+			b := l
+			for i := 1; i < len(l); i++ {
+				if !(l[i] == '_' || l[i] >= 'a' && l[i] <= 'z' || l[i] >= '0' && l[i] <= '9') {
+					b = l[:i]
+					break
+				}
+			}
+			if !bases[b] {
+				bases[b] = true
+				decl = append(decl, b)
+			}
+		}
+		params := []string{fmt.Sprintf("$p%d", u)}
+		for i := 1; i < nparams; i++ {
+			params = append(params, fmt.Sprintf("$z%d_%d = 0", u, i))
+		}
+		inner := append(append([]string{}, live...), fmt.Sprintf("$p%d", u))
+		head := fmt.Sprintf("function f%d(%s) {\n", u, strings.Join(params, ", "))
+		tail := "return 0;\n}\n"
+		if closure {
+			head = fmt.Sprintf("$f%d = function(%s) {\n", u, strings.Join(params, ", "))
+			tail = "return 0;\n};\n"
+		} else if len(decl) > 0 {
+			head += "global " + strings.Join(decl, ", ") + ";\n"
+		}
+		pre := snapLine("P", live) + head
+		post := tail + call(u, live[src]) + snapLine("F", live)
+		return pre, post, inner
+	}}
 }
 
 func routes() []route {
@@ -115,6 +159,19 @@ func routes() []route {
 		flat("fpushstore", true, nil, func(u int, src string) (string, string) {
 			return fmt.Sprintf("$y%d = [0];\narray_push($y%d, %s);\n", u, u, src), fmt.Sprintf("$y%d[1]", u)
 		}),
+		// by-value parameter reached through other call forms (callee has plain parameters only)
+		callRoute("pspread", true, nil, 2, func(u int, src string) string {
+			return fmt.Sprintf("$x%d = [0];\nf%d(%s, ...$x%d);\n", u, u, src, u)
+		}, false),
+		callRoute("pspreadelem", false, func(u int) (string, string) {
+			return fmt.Sprintf("$x%d = [0, 0];\n", u), fmt.Sprintf("$x%d[0]", u)
+		}, 2, func(u int, src string) string { return fmt.Sprintf("f%d(...$x%d);\n", u, u) }, false),
+		callRoute("pnamed", true, nil, 2, func(u int, src string) string {
+			return fmt.Sprintf("f%d(p%d: %s);\n", u, u, src)
+		}, false),
+		callRoute("pmap", false, func(u int) (string, string) {
+			return fmt.Sprintf("$x%d = [0];\n", u), fmt.Sprintf("$x%d[0]", u)
+		}, 1, func(u int, src string) string { return fmt.Sprintf("array_map(\"f%d\", $x%d);\n", u, u) }, false),
 		// `$x = f(...)` where f hands back an array that is STORED somewhere (not a fresh local)
 		{name: "fstatic", originBuild: func(u int, build func(lv string) string) (string, string) {
 			return fmt.Sprintf("function sget%d() {\nstatic $s = null;\nif ($s === null) {\n%s}\nreturn $s;\n}\n", u, build("$s")), fmt.Sprintf("sget%d()", u)
@@ -250,6 +307,9 @@ func (k kase) build() built {
 	var posts []string
 	for i, r := range rs {
 		if i > 0 && !r.general {
+			return built{}
+		}
+		if i > 0 && r.scope && rs[0].scope {
 			return built{}
 		}
 		pre, post, inner := r.apply(i+1, live, len(live)-1)
